@@ -3,6 +3,7 @@ package c09
 import (
 	"fmt"
 	"net"
+	"sync"
 	"time"
 
 	"verif/harness/api"
@@ -28,6 +29,71 @@ type scenario struct {
 	TimeoutMs int    `json:"timeout_ms"`
 	ReplyPct  int    `json:"reply_pct"` // when the genuine reply is sent, in % of the timeout after the call started
 	Debug     bool   `json:"debug,omitempty"`
+	Path      string `json:"path,omitempty"` // late-wrong-reply: udp, tcp or broadcast
+}
+
+// late-wrong-reply: the controller's only answer is a well-formed reply to SOME OTHER request (another function code, the
+// right serial number - the late answer to an earlier request, say) sent at ReplyPct % of the timeout; afterwards it is
+// silent, whatever else it is sent. Whether the call fails at once or keeps waiting for the real reply, the timeout bounds it.
+func runLateWrong(c scenario, scale int) *rp.Fail {
+	T := time.Duration(c.TimeoutMs*scale) * time.Millisecond
+	serial := uint32(405419896)
+	cs := call(c.Op, serial)
+	f := farm.New()
+	defer f.Close()
+	wrong := func(req []byte) []byte {
+		other := call(map[bool]string{true: "GetStatus", false: "GetTime"}[c.Op == "GetTime"], serial)
+		return reply(spec.Request(other.Call))
+	}
+	var first sync.Once
+	script := func(r farm.Received) []farm.Action {
+		var a []farm.Action
+		first.Do(func() { a = []farm.Action{{Delay: T * time.Duration(c.ReplyPct) / 100, Data: wrong(r.Data)}} })
+		return a
+	}
+	cfg := hook.ClientCfg{TimeoutMs: int(T / time.Millisecond), BindIP: [4]byte{127, 0, 0, 1}, Debug: c.Debug}
+	ip := [4]byte{127, 0, 8, 7}
+	requests := func() int { return 0 }
+	switch c.Path {
+	case "tcp":
+		e, err := f.TCP(ip, 0, farm.ScriptTCP(script))
+		if err != nil {
+			return nil
+		}
+		requests = func() int { return len(e.Log()) }
+		cfg.Devices = []hook.DeviceCfg{{Serial: serial, HasAddr: true, IP: ip, Port: e.Addr.Port(), Protocol: "tcp"}}
+	default:
+		e, err := f.UDP(ip, 0, farm.Script(script))
+		if err != nil {
+			return nil
+		}
+		requests = func() int { return len(e.Log()) }
+		if c.Path == "broadcast" {
+			cfg.HasBroadcast, cfg.BroadcastIP, cfg.BroadcastPort = true, ip, e.Addr.Port()
+		} else {
+			cfg.Devices = []hook.DeviceCfg{{Serial: serial, HasAddr: true, IP: ip, Port: e.Addr.Port(), Protocol: "udp"}}
+		}
+	}
+	u := hook.Real(cfg)
+	t0 := time.Now()
+	done := make(chan api.Result, 1)
+	go func() { done <- api.Invoke(u, cs) }()
+	select {
+	case res := <-done:
+		elapsed := time.Since(t0)
+		if res.Panic != nil {
+			return rp.Failf("late-wrong-reply/panic", "%s panicked: %v", c.Op, res.Panic)
+		}
+		if res.Err == nil {
+			return rp.Failf("late-wrong-reply/success-without-reply", "%s (%s) succeeded although the only answer was the reply to another request", c.Op, c.Path)
+		}
+		if elapsed > T+T/4+200*time.Millisecond {
+			return rp.Failf("late-wrong-reply/overrun", "%s (%s) returned after %v; the timeout is %v (the only answer, the reply to another request, came %d%% of it after the start; requests received: %d)", c.Op, c.Path, elapsed, T, c.ReplyPct, requests())
+		}
+	case <-time.After(2*T + 6*time.Second):
+		return rp.Failf("late-wrong-reply/hang", "%s (%s) has not returned (timeout %v)", c.Op, c.Path, T)
+	}
+	return nil
 }
 
 func runScenario(c scenario, scale int) *rp.Fail {
@@ -95,6 +161,8 @@ func runScenario(c scenario, scale int) *rp.Fail {
 		return runPortReleased(c, scale)
 	case "send-fails":
 		return runSendFails(c, scale)
+	case "late-wrong-reply":
+		return runLateWrong(c, scale)
 	}
 	u := hook.Real(cfg)
 	t0 := time.Now()
@@ -210,13 +278,20 @@ func runSendFails(c scenario, scale int) *rp.Fail {
 	before := farm.Sockets()
 	ub, ud, uc := hook.Real(bad), hook.Real(direct), hook.Real(bcast)
 	for round := 0; round < 2; round++ {
-		if c.Op == "GetDevices" {
-			func() {
+		returned := make(chan struct{})
+		go func() {
+			defer close(returned)
+			if c.Op == "GetDevices" {
 				defer func() { recover() }()
 				ub.GetDevices()
-			}()
-		} else {
-			api.Invoke(ub, call(c.Op, 1003))
+			} else {
+				api.Invoke(ub, call(c.Op, 1003))
+			}
+		}()
+		select {
+		case <-returned:
+		case <-time.After(2*T + 6*time.Second):
+			return rp.Failf("send-fails/hang", "%s, whose request could not be sent (broadcast address with port 0), has not returned %v after it was started (timeout %v)", c.Op, 2*T+6*time.Second, T)
 		}
 		if res := api.Invoke(ud, call("GetTime", 1001)); res.Panic != nil || res.Err != nil {
 			return rp.Failf("send-fails/call-failed/udp", "after another client's request on the same bind port could not be sent, GetTime (directed UDP, controller answers at once) failed: %v %v", res.Err, res.Panic)
@@ -235,7 +310,7 @@ func runSendFails(c scenario, scale int) *rp.Fail {
 }
 
 func checkScenario(c scenario) *rp.Fail {
-	if c.Kind == "port-released" || c.Kind == "send-fails" {
+	if c.Kind == "port-released" || c.Kind == "send-fails" || c.Kind == "late-wrong-reply" {
 		ev.Case("scenario/"+c.Kind, true, fmt.Sprintf("%+v", c))
 	} else {
 		ev.Case(fmt.Sprintf("scenario/%s/reply-%s", c.Kind, map[bool]string{true: "in-time", false: "after-deadline"}[c.ReplyPct <= 80]), true, fmt.Sprintf("%+v", c))
@@ -268,7 +343,13 @@ func sweepScenarios(yield func(scenario) bool) {
 	cases = append(cases, scenario{Kind: "port-released", Op: "GetDevices", TimeoutMs: 600, ReplyPct: 90}, scenario{Kind: "port-released", Op: "GetTime", TimeoutMs: 600, ReplyPct: 90},
 		scenario{Kind: "port-released", Op: "OpenDoor", TimeoutMs: 500, ReplyPct: 60, Debug: true},
 		scenario{Kind: "send-fails", Op: "OpenDoor", TimeoutMs: 400}, scenario{Kind: "send-fails", Op: "GetDevices", TimeoutMs: 150})
+	for i, path := range []string{"udp", "tcp", "broadcast"} {
+		cases = append(cases, scenario{Kind: "late-wrong-reply", Op: []string{"GetTime", "GetStatus", "OpenDoor"}[i], Path: path, TimeoutMs: 600, ReplyPct: 85, Debug: i == 2})
+	}
 	if ev.Thorough() {
+		for i, path := range []string{"udp", "tcp", "broadcast"} {
+			cases = append(cases, scenario{Kind: "late-wrong-reply", Op: []string{"PutCard", "GetTime", "GetCardByID"}[i], Path: path, TimeoutMs: 1500, ReplyPct: 93})
+		}
 		for _, pct := range []int{125, 140, 70, 75} {
 			cases = append(cases, scenario{Kind: "slow-connect", Op: "GetStatus", TimeoutMs: 1700, ReplyPct: pct})
 		}
